@@ -106,8 +106,12 @@ class CallMixin:
             if cs is None:
                 cs = self.cur[0].callsites.get(ast.unparse(f))
             if cs is not None:
+                extra = {}
+                if any('_arg' in t for t in cs):
+                    for n, a in enumerate(node.args):      # the actual arguments, for obligations about them
+                        extra['_arg%d' % n] = self.pure(a, st)
                 for n, text in enumerate(cs):
-                    self.oblige(st, 'callsite', '%s:%d' % (ast.unparse(f), n), text, self.ev_spec(text, st), node.lineno)
+                    self.oblige(st, 'callsite', '%s:%d' % (ast.unparse(f), n), text, self.ev_spec(text, st, extra), node.lineno)
         rule = self.find_rule(ast.unparse(f))
         if rule is not None:
             return self.apply_rule(rule, node, st, k)
@@ -134,6 +138,9 @@ class CallMixin:
                 return self.call_method(fv.data['recv'], fv.data['name'], args, kws, st, node, k)
             if kind == 'handler':
                 return fv.data['call'](self, st, node, args, kws, k)
+        if isinstance(fv, VOpt):
+            return self.guard(st, z3.Not(fv.isnone), 'TypeError', 'call-none', node,
+                              lambda s: self.call_value(fv.inner, args, kws, s, node, k))
         if isinstance(fv, VObj) and fv.sort in self.callable_sorts:
             return k(st, self.callable_sorts[fv.sort](self, st, fv, args))
         if isinstance(fv, VClass) and (fv.name + '.__init__') in self.contracts:
@@ -309,7 +316,15 @@ class CallMixin:
             e = ast.parse(m, mode='eval').body
             if isinstance(e, ast.Name):
                 v = st.lookup(e.id)
+                if isinstance(v, VOpt):
+                    v = v.inner
                 if isinstance(v, VRef) and not isinstance(st.heap[v.rid], HRec):
+                    h0 = st.heap[v.rid]
+                    if (isinstance(h0, HList) and h0.et is None) or (isinstance(h0, HDict) and h0.kt is None):
+                        t = c.params.get(e.id)
+                        if t is not None and t[0] == 'opt':
+                            t = t[1]
+                        self.coerce(v, t, st)
                     self.havoc_heap(v.rid, st)
                 continue
             if isinstance(e, ast.Attribute):
@@ -558,6 +573,12 @@ class CallMixin:
         if isinstance(v, VObj) and v.sort == 'Str':
             return k(st, v)
         return k(st, self.uf('str_of', [v], T_STR))
+
+    def bi_math_floor(self, args, kws, st, node, k):
+        v = args[0]
+        if isinstance(v, VInt):
+            return k(st, v)
+        return k(st, VInt(z3.ToInt(v.z)))
 
     def bi_hasattr(self, args, kws, st, node, k):
         o, name = args
